@@ -9,6 +9,8 @@ class Prop(BaseProp):
     theorems = ["C04_wordlist_official", "C04_wordlist_nodup", "C04_words_injective", "C04_decode_encode",
                 "C04_good_size_accepted", "C04_bad_size_rejected", "C04_string_route"]
     exec_modules = ["Exec.C04"]
+    extra_modules = {"C04Src": ["C04_source_is_model", "C04_source_good_size", "C04_source_bad_size_rejected", "C04_source_translated"]}
+    pysem_funcs = ["bip39.mnemonic_from_entropy", "bip39.checksum_length", "bip39.mnemonic_sentence_length", "bip39.correct_entropy_bits_value"]
     exec_import = "From BHW Require Import Lib.Base Exec.Common Exec.C04.\nFrom Coq Require Import String.\nOpen Scope string_scope."
     shard = 40
     rule = ("mnemonic_from_entropy on hex strings: every byte length 0..64 x patterns (all-zero, all-ones, leading zero bytes, trailing zeros, "
